@@ -73,6 +73,29 @@ fn s_all(n: usize) -> Vec<String> {
     out
 }
 
+/// P-all: every ordered pair of characters U+0000..U+0020 and six other class representatives
+/// (state carried from one escape to the next inside one string), and every triple over a
+/// reduced set of controls.
+fn p_all() -> Vec<String> {
+    let mut cs: Vec<char> = (0u32..=0x20).filter_map(char::from_u32).collect();
+    cs.extend(['"', '\\', '\u{7f}', '\u{e9}', '\u{2028}', '\u{1f600}']);
+    let mut out = Vec::new();
+    for &a in &cs {
+        for &b in &cs {
+            out.push(format!("{a}{b}"));
+        }
+    }
+    let small = ['\u{0}', '\u{7}', '\u{8}', '\u{b}', '\u{f}', '\u{10}', '\u{1f}', 'a', '\u{e9}'];
+    for a in small {
+        for b in small {
+            for c in small {
+                out.push(format!("{a}{b}{c}"));
+            }
+        }
+    }
+    out
+}
+
 fn string_values(s: &str) -> [RV; 2] {
     [RV::Str(s.to_string()), RV::Obj(vec![(s.to_string(), RV::Arr(vec![RV::Str(s.to_string()), RV::Null]))])]
 }
@@ -355,7 +378,8 @@ fn run_product(rep: &mut Report, mode: Mode, tier: Tier) {
     // S-all: strings mixing every character class, as value and as key, under the presets and
     // every single-field deviation (incl. width thresholds straddling the printed widths)
     {
-        let strings = s_all(tier.pick(4, 5));
+        let mut strings = s_all(tier.pick(4, 5));
+        strings.extend(p_all());
         let n = strings.len();
         let t = explore::par_tally(strings.chunks(64).map(|c| c.to_vec()).collect(), |chunk, t| {
             if budget.expired() {
@@ -538,7 +562,8 @@ fn run_c08(rep: &mut Report, tier: Tier) {
         }
     });
     rep.absorb(t);
-    let strings = s_all(tier.pick(5, 6));
+    let mut strings = s_all(tier.pick(5, 6));
+    strings.extend(p_all());
     let ns = strings.len();
     let t = explore::par_tally(strings.chunks(256).map(|c| c.to_vec()).collect(), |chunk, t| {
         for s in chunk {
